@@ -69,6 +69,7 @@ func TestVerif_C49(t *testing.T) {
 			var stopTook time.Duration
 			tunRefuses := true
 			stopped := false
+			stopHangs := false
 			openSockets := 0
 			// every other history: the node under test is configured with two routines; Main then opens two udp sockets
 			// and activate() clamps the readers to the single queue the test device has
@@ -85,9 +86,16 @@ func TestVerif_C49(t *testing.T) {
 				b.Ctrl.InjectLightHouseAddr(a.Vpn[0].Addr(), a.UDP)
 				tn := n.Nodes[target]
 				started := map[string]bool{}
-				if routines > 1 {
+				// half of the histories (in blocks of three): the node under test hands lighthouse queries over on an unbuffered channel
+				// (handshakes.query_buffer: 0; default 64)
+				qb0 := (hi/3)%2 == 1
+				if routines > 1 || qb0 {
 					// rebuild the node under test with `routines: 2` (same certificate name, addresses and role)
 					over := m{"routines": routines}
+					if qb0 {
+						over["handshakes"] = m{"query_buffer": 0}
+						res.Hit("query_buffer:0")
+					}
 					for k, v := range map[string]m{"L": {"lighthouse": m{"am_lighthouse": true, "interval": 1}}, "A": lhm, "B": lhm}[target] {
 						over[k] = v
 					}
@@ -101,7 +109,9 @@ func TestVerif_C49(t *testing.T) {
 						b = tn
 						b.Ctrl.InjectLightHouseAddr(a.Vpn[0].Addr(), a.UDP)
 					}
-					res.Hit("routines:2")
+					if routines > 1 {
+						res.Hit("routines:2")
+					}
 				}
 				sockets := tn.Ctrl.VerifSockets()
 				if len(sockets) == routines {
@@ -134,12 +144,36 @@ func TestVerif_C49(t *testing.T) {
 						// the context is cancelled while the node's goroutines are still parked behind the full transmit
 						// queue (Stop cancels first); the queue is emptied again only once Stop itself blocks
 						tn.ReleaseNoWait()
-						tn.Ctrl.Stop()
+						done := make(chan struct{})
+						go func() {
+							tn.Ctrl.Stop()
+							close(done)
+						}()
+						synctest.Wait()
+						select {
+						case <-done:
+						default:
+							// Stop waits for something: give it (virtual) time; if it still has not returned it waits for
+							// something that never comes
+							n.Advance(3 * time.Second)
+							select {
+							case <-done:
+							default:
+								stopHangs = true
+							}
+						}
 						if d := time.Since(t0); d > stopTook {
 							stopTook = d
 						}
 						stopped = true
 						synctest.Wait()
+					case "rebind":
+						// the underlay changed (mobile clients, network change watcher): Control.RebindUDPServer
+						if started[tn.Name] {
+							tn.Ctrl.RebindUDPServer()
+							synctest.Wait()
+							res.Hit("rebind:on-started-node")
+						}
 					case "tunsend":
 						pkt()
 					case "hs1", "hs2":
@@ -259,7 +293,9 @@ func TestVerif_C49(t *testing.T) {
 				}
 				res.Mismatch("leak:"+c49Func(leaks[0]), fmt.Sprintf("after history %v on node %s %d goroutine(s) of the node survive Stop: %s", hist, target, len(leaks), where), detail)
 			}
-			if stopTook > time.Second {
+			if stopHangs {
+				res.Mismatch("stop:hangs", fmt.Sprintf("Stop did not return within 3 s of virtual time after history %v on node %s (routines %d, query_buffer 0: %v)", hist, target, routines, (hi/3)%2 == 1), detail)
+			} else if stopTook > time.Second {
 				res.Mismatch("stop:slow", fmt.Sprintf("Stop took %v of virtual time after history %v on node %s", stopTook, hist, target), detail)
 			}
 			if openSockets > 0 {
